@@ -173,6 +173,11 @@ func (f *frame) execInstr(in ssa.Instruction) {
 	case *ssa.Range:
 		_, isStr := types.Unalias(x.X.Type()).Underlying().(*types.Basic)
 		f.vals[x] = &MapIter{Map: f.get(x.X), MapType: x.X.Type(), IsStr: isStr}
+		if mt, ok := types.Unalias(x.X.Type()).Underlying().(*types.Map); ok && !isStr {
+			// ghost: the set of keys this iteration has produced so far (empty at the start)
+			ks := arraySort(f.c.sortOf(mt.Key()), SBool)
+			f.c.heapSet(f.heap, "G iter "+x.Name(), Term{fmt.Sprintf("((as const %s) false)", ks), ks})
+		}
 	case *ssa.Slice:
 		f.execSlice(x)
 	case *ssa.Store:
@@ -744,7 +749,20 @@ func (f *frame) execNext(x *ssa.Next) {
 	c.assume(implies(okT, and(not(eq(m, tNil)), sel(sel(dom, m), k), gt(sel(ln, m), tZero))))
 	v := c.name(f.vname(x)+".v", sel(sel(val, m), k))
 	c.assume(implies(f.guard, c.typeInv(v, mt.Elem(), c.nalloc(f.heap), 0)))
-	c.assumed["map iteration yields arbitrary present keys (order and exactly-once visiting are not modelled)"] = true
+	c.assumed["map iteration yields the present keys in arbitrary order, each once, and ends when all were produced (the map is assumed not to be modified while it is ranged over)"] = true
+	// ghost visited set: a produced key was not produced before; the iteration ends exactly when
+	// every present key was produced
+	if rg, isRange := x.Iter.(*ssa.Range); isRange {
+		ks := c.sortOf(mt.Key())
+		vkey := "G iter " + rg.Name()
+		vis := c.heapGet(f.heap, vkey, arraySort(ks, SBool))
+		c.assume(implies(and(f.guard, okT), not(sel(vis, k))))
+		c.counter["q"]++
+		qk := quote(fmt.Sprintf("q k %d", c.counter["q"]))
+		c.assume(implies(and(f.guard, not(okT), not(eq(m, tNil))), Term{fmt.Sprintf("(forall ((%s %s)) (! (=> (select (select %s %s) %s) (select %s %s)) :pattern ((select (select %s %s) %s))))",
+			qk, ks, dom.S, m.S, qk, vis.S, qk, dom.S, m.S, qk), SBool}))
+		c.heapSet(f.heap, vkey, ite(and(f.guard, okT), store(vis, k, tTrue), vis))
+	}
 	f.vals[x] = Tuple{okT, k, v}
 }
 
@@ -842,6 +860,12 @@ func (f *frame) havocAll(why string) {
 // operations whose contracts update that ghost state).
 func (c *Ctx) keepGhost(from, to *heapState, except map[string]bool) {
 	for k, srt := range c.eng.heapSorts {
+		if strings.HasPrefix(k, "G iter ") {
+			if _, have := from.arrays[k]; have {
+				to.arrays[k] = from.arrays[k]
+			}
+			continue
+		}
 		if strings.HasPrefix(k, "G ") && !except[k] {
 			to.arrays[k] = c.heapGet(from, k, srt)
 			c.assumed["ghost state ("+k[2:]+") is not changed by callees that have no contract"] = true
